@@ -92,7 +92,9 @@ public:
     }
 
     _vector.insert(_vector.end(), buffer, buffer + size); // does not reallocate
+    BINLOG_VERIF_POINT("meta-inserted");
     updateSize();
+    BINLOG_VERIF_POINT("meta-size-updated");
     return *this;
   }
 
@@ -130,8 +132,10 @@ private:
     bigger.resize(sizeof(magic));                                              // zero magic
     bigger.insert(bigger.end(), _vector.begin() + sizeof(magic), _vector.end()); // id, size, content
     memcpy(bigger.data(), &magic, sizeof(magic));
+    BINLOG_VERIF_POINT("meta-magic-set");
 
     clearMagic();
+    BINLOG_VERIF_POINT("meta-magic-cleared");
     _vector.swap(bigger);
   }
 
